@@ -73,6 +73,9 @@ func typeSwitchesOverGraphqlType(p *an.Prog, pp *packages.Package) []struct {
 
 func c14(c *an.Ctx) {
 	p := c.P
+	c.Check("R-BOOL", "batch field adapter: a missing or nil batch result is an error exactly for non-nullable fields, a present one is delivered for its own source (decision tables shared with C01)", 6, func(o *an.O) {
+		ruleBatchAdapterTables(c, o)
+	})
 	c.Check("R-KEY", "object fields exactly as selected: a memoised sub-result of an expensive field is keyed by field, source and the selection itself", 1, func(o *an.O) { ruleWorkCacheKey(c, o) })
 	outputKinds := []string{"Enum", "List", "NonNull", "Object", "Scalar", "Union"}
 
